@@ -399,20 +399,8 @@ def rule_G(ctx):
     def Bb(xmin, xmax, ymin, ymax):
         return BBc(ENc(float(xmin), float(ymin), 0.0), ENc(float(xmax), float(ymax), 0.0))
 
-    class P(orders.PyStub):
-        isa = ('ENUCoords',)
-
-        def __init__(self, x, y):
-            self.x, self.y = float(x), float(y)
-
-        def getX(self):
-            return self.x
-
-        def getY(self):
-            return self.y
-
-        def __repr__(self):
-            return '(%g, %g)' % (self.x, self.y)
+    def P(x, y):
+        return ENc(float(x), float(y), 0.0)             # the repository's own ENUCoords
     grids = [('extent 3 x 2 cells exactly', (0.0, 30.0, 0.0, 20.0), (10.0, 10.0)),
              ('extent not a whole number of rows (height 25, cells of 10)', (0.0, 30.0, 0.0, 25.0), (10.0, 10.0)),
              ('extent not a whole number of columns (width 24, cells 10 x 5)', (100.0, 124.0, -10.0, 0.0), (10.0, 5.0)),
@@ -455,53 +443,18 @@ def rule_G(ctx):
     ctx.check(bad is None, 'C19.C', fg, 'getCell: every point of the extent (cell interiors, cell borders, corners, extent borders) gets a cell of the grid whose footprint contains it (%d grids)' % len(grids),
               witness=bad, node=fg.node, key='getCell')
     # ---- (3) scatter + aggregate
-    class Ob(orders.PyStub):
-        def __init__(self, pos):
-            self.position = pos
+    # tracks and the collection are the repository's own Track / TrackCollection / Obs objects
+    Tc = absint.classref(ctx, 'tracklib.core.track.Track', fn)
+    TCc = absint.classref(ctx, 'tracklib.core.track_collection.TrackCollection', fn)
 
-    class Tr(orders.PyStub):
-        isa = ('Track',)
+    def Tr(uid, pts, feats):
+        t_ = Tc([absint.real_obs(ctx, fn, P(*p_)) for p_ in pts], uid, 't')
+        for nm_, vals_ in feats.items():
+            t_.call('createAnalyticalFeature', nm_, list(vals_))
+        return t_
 
-        def __init__(self, uid, pts, feats):
-            self.uid = uid
-            self.obs = [Ob(P(*p_)) for p_ in pts]
-            self.feats = feats
-
-        def size(self):
-            return len(self.obs)
-
-        def __len__(self):
-            return len(self.obs)
-
-        def getObs(self, i):
-            return self.obs[i]
-
-        def __getitem__(self, i):
-            return self.obs[i]
-
-        def hasAnalyticalFeature(self, nm):
-            return nm in self.feats
-
-        def getObsAnalyticalFeature(self, nm, i):
-            return self.feats[nm][i]
-
-    class Coll(orders.PyStub):
-        isa = ('TrackCollection',)
-
-        def __init__(self, tracks):
-            self.tracks = tracks
-
-        def getTracks(self):
-            return list(self.tracks)
-
-        def size(self):
-            return len(self.tracks)
-
-        def __iter__(self):
-            return iter(self.tracks)
-
-        def __getitem__(self, i):
-            return self.tracks[i]
+    def Coll(tracks):
+        return TCc(list(tracks))
     ext, res = (0.0, 30.0, 0.0, 20.0), (10.0, 10.0)
     layouts = {
         'two tracks with different uids': [(1, [(5, 5), (15, 5), (15, 15), (25, 15)], [1.0, 2.0, DNAN, 4.0]), (2, [(5, 5), (5, 15), (25, 15)], [10.0, 20.0, 30.0])],
